@@ -1,8 +1,38 @@
-import Lean.Data.Json
-/- stub: the C12 driver is not built yet -/
+import Glom.Driver.C11
+import Glom.Spec.C12
+/-
+  C12 driver: one JSON case in, one JSON verdict out.  Same case format as C11
+  (classes, cflags, heap, target, scope, root, spelling) plus
+     "ignore_missing": bool,
+     "impl": {"res": …, "heap": […], "calls": 0, "hidden": b}
+-/
 namespace Glom.C12.Driver
-open Lean
+open Lean Glom Glom.Mut Glom.C11 Glom.C12 Glom.C11.Driver
 
-def run (_j : Json) : Except String Json := .error "property C12: driver not implemented yet"
+def run (j : Json) : Except String Json := do
+  let c ← commonOfJson j
+  let ignore ← j.getObjValAs? Bool "ignore_missing"
+  let implObs ← obsOfJson (← j.getObjVal? "impl")
+  let root := if c.sroot then c.sref else c.target
+  let out := delete c.env c.sroot c.sref ignore c.heap c.target c.steps
+  let modelObs := C12.observe c.env out
+  let ref := refDelete c.env c.heap root c.steps ignore
+  if ref == .unsupported || (match out.2 with | .error .unmodelled => true | _ => false) then
+    return Json.mkObj [("skip", true), ("why", "path outside the modelled domain (`**`)")]
+  let agree := modelObs == implObs
+  let holds := checkC12 c.env c.heap c.target root c.steps ignore implObs
+  let modelHolds := checkC12 c.env c.heap c.target root c.steps ignore modelObs
+  let star := hasStar c.steps
+  let cov := C12.covered c.env c.steps
+  let covStar := star && C12.WF c.env && classesOK c.env && noScope c.env && wfStar c.steps
+  let refTag := match ref with
+    | .ok .. => "del" | .missingFinal e => s!"missing-final({e.cls})" | .missingParent .. => "missing-parent"
+    | .fault => "fault" | .partialFail => "partial" | .unsupported => "unsupported"
+  let branch := (if c.sroot then "S:" else "") ++ (if star then "star:" else "") ++
+    (if ignore then "ignore:" else "") ++ refTag ++ "→" ++ resTag modelObs.res ++
+    (if cov then " [thm]" else if covStar then " [thm*]" else "")
+  return Json.mkObj [("agree", agree), ("holds", holds), ("model_holds", modelHolds),
+    ("wf", C12.WF c.env), ("covered", cov || covStar), ("model", obsToJson modelObs),
+    ("ref", refTag), ("branch", branch)]
 
 end Glom.C12.Driver
